@@ -579,5 +579,153 @@ func extractC04Bytes(c *Ctx) error {
 	c.P("(* TxExecutedProof.BytesToHash / GetTX / GetReceipt *)")
 	c.P("Definition tx_proof_shape : list string := %s.", CoqStrList(shape))
 	c.Info("tx_proof_shape", shape)
+	return extractC04Guards(c)
+}
+
+// ---- guards in front of the quorum decision ----
+// For each wrapper that leads to VerifyEvidence / VerifyGasEstimates: the conditions of every early exit
+// (return / continue / break) that lies before the call.  Gen/C04.v pins them; an exit that is not the body
+// of a plain `if` (a switch, a bare return, a goto ...) is a shape the translator does not understand.
+
+func c04HasExit(n ast.Node) bool {
+	found := false
+	ast.Inspect(n, func(x ast.Node) bool {
+		switch x.(type) {
+		case *ast.FuncLit:
+			return false
+		case *ast.ReturnStmt, *ast.BranchStmt:
+			found = true
+		}
+		return !found
+	})
+	return found
+}
+
+func c04Guards(c *Ctx, fd *ast.FuncDecl, callee string) ([]string, error) {
+	calls := Calls(fd.Body, callee)
+	if len(calls) != 1 {
+		return nil, fmt.Errorf("%s: expected exactly one call of %s, found %d", fd.Name.Name, callee, len(calls))
+	}
+	callPos := calls[0].Pos()
+	var guards []string
+	var walk func(list []ast.Stmt) error
+	walk = func(list []ast.Stmt) error {
+		for _, st := range list {
+			if st.Pos() > callPos {
+				return nil
+			}
+			contains := st.Pos() <= callPos && callPos < st.End()
+			switch s := st.(type) {
+			case *ast.IfStmt:
+				if contains && s.Init != nil && s.Init.Pos() <= callPos && callPos < s.Init.End() {
+					return nil // `if err := call(...); err != nil`: the call itself, unguarded
+				}
+				if contains { // the call sits inside this if: its condition guards the call itself
+					return fmt.Errorf("%s: the call of %s is inside `if %s`", fd.Name.Name, callee, c.Src(s.Cond))
+				}
+				if c04HasExit(s) {
+					if s.Else != nil {
+						return fmt.Errorf("%s: early exit in an if/else before %s not understood", fd.Name.Name, callee)
+					}
+					g := c.Src(s.Cond)
+					if s.Init != nil {
+						g = c.Src(s.Init) + "; " + g
+					}
+					guards = append(guards, g)
+				}
+			case *ast.ForStmt:
+				if err := walk(s.Body.List); err != nil {
+					return err
+				}
+			case *ast.RangeStmt:
+				if err := walk(s.Body.List); err != nil {
+					return err
+				}
+			case *ast.BlockStmt:
+				if err := walk(s.List); err != nil {
+					return err
+				}
+			default:
+				if !contains && c04HasExit(st) {
+					return fmt.Errorf("%s: early exit before %s in a statement that is not a plain if: %q", fd.Name.Name, callee, c.Src(st))
+				}
+			}
+		}
+		return nil
+	}
+	if err := walk(fd.Body.List); err != nil {
+		return nil, err
+	}
+	return guards, nil
+}
+
+func extractC04Guards(c *Ctx) error {
+	for _, g := range []struct{ dir, recv, fn, callee, name string }{
+		{"x/evm/keeper", "Keeper", "attestMessageWrapper", "VerifyEvidence", "attest_guards"},
+		{"x/consensus/keeper", "Keeper", "CheckAndProcessAttestedMessages", "ProcessMessageForAttestation", "attest_loop_guards"},
+		{"x/consensus/keeper", "Keeper", "checkAndProcessEstimatedMessage", "VerifyGasEstimates", "estimate_guards"},
+		{"x/consensus/keeper", "Keeper", "CheckAndProcessEstimatedMessages", "checkAndProcessEstimatedMessage", "estimate_loop_guards"},
+	} {
+		files, err := c.ParseDir(g.dir)
+		if err != nil {
+			return err
+		}
+		fd := FindFuncIn(files, g.recv, g.fn)
+		if fd == nil {
+			return fmt.Errorf("%s.%s not found in %s", g.recv, g.fn, g.dir)
+		}
+		gs, err := c04Guards(c, fd, g.callee)
+		if err != nil {
+			return err
+		}
+		c.P("(* %s/%s: conditions of the early exits before %s *)", g.dir, g.fn, g.callee)
+		c.P("Definition %s : list string := %s.", g.name, CoqStrList(gs))
+		c.Info(g.name, gs)
+	}
+	// who calls the two quorum functions in production code
+	var callers []string
+	for _, root := range []string{"x", "util", "app"} {
+		err := filepath.WalkDir(filepath.Join(c.Repo, root), func(p string, d fs.DirEntry, err error) error {
+			if err != nil {
+				if os.IsNotExist(err) {
+					return nil
+				}
+				return err
+			}
+			if d.IsDir() || !strings.HasSuffix(p, ".go") || strings.HasSuffix(p, "_test.go") {
+				return nil
+			}
+			src, err := os.ReadFile(p)
+			if err != nil {
+				return err
+			}
+			if !strings.Contains(string(src), "VerifyEvidence") && !strings.Contains(string(src), "VerifyGasEstimates") {
+				return nil
+			}
+			rel, _ := filepath.Rel(c.Repo, p)
+			f, err := c.Parse(rel)
+			if err != nil {
+				return err
+			}
+			for _, d := range f.Decls {
+				fd, ok := d.(*ast.FuncDecl)
+				if !ok || fd.Body == nil {
+					continue
+				}
+				for _, callee := range []string{"VerifyEvidence", "VerifyGasEstimates"} {
+					if fd.Name.Name != callee && len(Calls(fd.Body, callee)) > 0 {
+						callers = append(callers, rel+":"+fd.Name.Name+"->"+callee)
+					}
+				}
+			}
+			return nil
+		})
+		if err != nil {
+			return err
+		}
+	}
+	sort.Strings(callers)
+	c.P("Definition quorum_callers : list string := %s.", CoqStrList(callers))
+	c.Info("quorum_callers", callers)
 	return nil
 }
